@@ -10,6 +10,10 @@
 //!   mset<k>             from the next birth on the node and its devices register the extra metric `x<k>`
 //!                       (0 = none, the previous extra one is dropped); node publishes with >= 2 metrics
 //!                       carry the extra metric of the node's latest birth. Rendered `eon stim rule mset <k>`.
+//!   props<k>            from now on metrics carry a property set: k = where + 4 * profile, where 1 = the birth
+//!                       metric `m` of every NBIRTH / DBIRTH, 2 = every metric of every data publish, 3 = both;
+//!                       profile 0 = a value and a null of every property datatype, 1 = nested sets and set lists,
+//!                       2 = twelve levels of nested sets, 3 = all of it; props0 = none. Rendered `eon stim rule props <k>`.
 //!   non / noff          node connection reported Online / broken (registered will -> NDEATH to the host)
 //!   hon / hoff          host connection reported Online / broken (everything addressed to it is lost)
 //!   reg<d> unreg<d> en<d> dis<d> drb<d> nrb                     node-side user activity
@@ -70,6 +74,8 @@ enum Step {
     Adv(u64),
     DeliverAll,
     MSet(u32),
+    /// metrics carry property sets from now on (`eon` rule `props`)
+    Props(u32),
     /// client back-pressure at the node: the next call of this kind is parked by the client
     Park(String),
     /// back-pressure ends: every parked call of the node's client is accepted
@@ -101,6 +107,7 @@ impl Step {
             Step::Adv(ms) => format!("adv{}", ms),
             Step::DeliverAll => "da".into(),
             Step::MSet(k) => format!("mset{}", k),
+            Step::Props(k) => format!("props{}", k),
             Step::Park(k) => format!("pk:{}", k),
             Step::Res => "res".into(),
         }
@@ -155,6 +162,11 @@ impl Step {
                     Step::En(k as u32)
                 } else if let Some(k) = num("adv") {
                     Step::Adv(k)
+                } else if let Some(k) = num("props") {
+                    if k > eon::PROPS_MAX as u64 {
+                        return None;
+                    }
+                    Step::Props(k as u32)
                 } else if let Some(k) = num("mset") {
                     if k > eon::MSET_MAX as u64 {
                         return None;
@@ -194,6 +206,7 @@ impl Step {
             Step::Adv(_) => "time-passes",
             Step::DeliverAll => "deliver-all",
             Step::MSet(_) => "metric-set-change",
+            Step::Props(_) => "metric-properties-change",
             Step::Park(_) => "client-parks-a-call",
             Step::Res => "parked-calls-released",
         }
@@ -938,6 +951,13 @@ impl World {
                 self.eon_line(out, &format!("rule {} park 1", k), None);
             }
             Step::Res => self.release_parked(out),
+            Step::Props(k) => {
+                let obs = self.eon_line(out, &format!("rule props {}", k), None);
+                if obs != "-" {
+                    out.fail("LOOP:wire", "props-observed", format!("`rule props {}` => {}", k, obs));
+                }
+                out.count(&format!("props:where={}:profile={}", k % 4, k / 4));
+            }
             Step::MSet(k) => {
                 self.mset_used = true;
                 let obs = self.eon_line(out, &format!("rule mset {}", k), None);
@@ -1245,6 +1265,11 @@ fn random_case(out: &mut Out, rng: &mut Rng, len_lo: u64, len_hi: u64) -> (Cfg, 
     let cfg = Cfg { to, strict: msets && rng.chance(1, 2) };
     // a quarter of the other cases put back-pressure on the node's client
     let parks = !msets && rng.chance(1, 4);
+    // a third of the cases give metrics property sets (every property datatype, nulls, nested sets, set lists, deep
+    // nesting) on births, on data or on both, from the start or from some step on. The choices come from a stream of
+    // their own, so that the fault schedules of a seed are the ones they were before this dimension existed.
+    let mut prng = Rng(rng.0 ^ 0x5DEE_CE66_D1CE_B00C);
+    let props = prng.chance(1, 3);
     let mut w = World::begin(out, cfg);
     let mut steps: Vec<Step> = vec![];
     let mut go = |w: &mut World, out: &mut Out, steps: &mut Vec<Step>, s: Step| {
@@ -1267,6 +1292,9 @@ fn random_case(out: &mut Out, rng: &mut Rng, len_lo: u64, len_hi: u64) -> (Cfg, 
     if msets && rng.chance(1, 2) {
         go(&mut w, out, &mut steps, Step::MSet(rng.range(1, eon::MSET_MAX as u64) as u32));
     }
+    if props && prng.chance(2, 3) {
+        go(&mut w, out, &mut steps, Step::Props(prng.range(1, eon::PROPS_MAX as u64) as u32));
+    }
     if rng.chance(9, 10) {
         go(&mut w, out, &mut steps, Step::NodeOn);
     }
@@ -1276,6 +1304,9 @@ fn random_case(out: &mut Out, rng: &mut Rng, len_lo: u64, len_hi: u64) -> (Cfg, 
     for _ in 0..len {
         if w.dead {
             break;
+        }
+        if props && prng.chance(1, 12) {
+            go(&mut w, out, &mut steps, Step::Props(prng.range(0, eon::PROPS_MAX as u64) as u32));
         }
         let nh = w.to_host.len();
         let nn = w.to_node.len();
@@ -1357,6 +1388,9 @@ fn random_case(out: &mut Out, rng: &mut Rng, len_lo: u64, len_hi: u64) -> (Cfg, 
     if msets {
         out.count(if cfg.strict { "cfg:metric-set-changes:strict-stores" } else { "cfg:metric-set-changes:lenient-stores" });
     }
+    if steps.iter().any(|s| matches!(s, Step::Props(k) if *k > 0)) {
+        out.count("cfg:metrics-with-properties");
+    }
     w.finish(out, &desc);
     (cfg, steps)
 }
@@ -1399,6 +1433,11 @@ fn scripts() -> Vec<(&'static str, String, &'static str)> {
         ("mset-reconnect", "to=3000 | non reg1 en1 da mset3 noff da non da", "the metric set changes while the node is disconnected: the next session has a new bdSeq"),
         ("mset-reconnect-will-lost-to-host-offline", "to=3000 | non reg1 en1 da hoff mset3 noff non hon da", "reconnect with a new metric set while the host is away"),
         ("mset-device-rebirth", "to=3000 | non reg1 en1 da mset2 drb1 da", "a device rebirth carries the new set (DBIRTHs are always handed to the device store)"),
+        ("props-on-every-birth", "to=3000 | props13 non reg1 en1 reg2 en2 da pn:blk:1 pd1:blk:1 pd2:try:2 da", "no fault at all; the birth metric `m` of the NBIRTH and of both DBIRTHs carries a property set with a value and a null of every property datatype (all integer widths, floats, boolean, string, DateTime, Text, UUID), nested sets, set lists and twelve levels of nesting: the host must hold the node and both devices birthed"),
+        ("props-flat-on-device-births", "to=3000 | non da props1 reg1 en1 da pd1:blk:1 da props0 reg2 en2 da", "only the device births carry properties (flat set: every scalar property datatype, value and null); a second device without"),
+        ("props-on-data", "to=3000 | non reg1 en1 da props14 pn:blk:2 pd1:try:1 pn:trysort:3 pd1:blksort:2 da props0 pn:blk:1 pd1:blk:1 da", "every metric of the node's and the device's data messages carries the full property set; the values must reach the stores and no gap may open"),
+        ("props-nested-rebirth-after-gap", "to=50 | props7 non reg1 en1 da pd1:blk:1 pd1:blk:1 drop0 da adv51 da", "births and data carry nested sets and set lists; a lost DDATA opens a gap, the timeout makes the host ask for a rebirth, the new births carry the properties again"),
+        ("props-deep-manual-rebirth-reconnect", "to=3000 | non reg1 en1 da props11 nrb da pn:blk:1 pd1:blk:1 da noff da non da", "twelve levels of nested property sets on births and data: manual rebirth, then a reconnect with the next bdSeq"),
         ("unregister-with-ddata-in-flight", "to=3000 | non reg1 en1 reg2 en2 da pd1:blk:1 unreg1 dl1 dl0 pd2:blk:1 da", "a device is removed while its last DDATA is in flight; its DDEATH overtakes it"),
     ];
     v.into_iter().map(|(a, b, c)| (a, b.to_string(), c)).collect()
@@ -1465,7 +1504,7 @@ fn minimise(scratch: &PathBuf, to: Cfg, steps: &[Step], sig: &str) -> Vec<Step> 
     cur
 }
 
-pub const RULE: &str = "closed loop of the real EoN and the real Application through a simulated broker carrying the real wire form (topic strings, prost bytes), one paused runtime, one mock clock, both rebirth cooldowns 0, resequencing on, reorder timeout 50 / 200 / 3000 ms: (a) scripted scenarios (clean start, lost DDATA -> gap -> timeout -> NCMD -> rebirth, host started late, lost NBIRTH, duplicate NDATA, node disconnect with will, will overtaken by the new NBIRTH, host disconnect during traffic, DDEATH overtaking / overtaken, manual rebirth with reordered births, NCMD lost / duplicated, partial gap fill, unregister in flight); (b) random fault schedules of 10-40 (thorough: 20-120) steps over deliver-oldest / deliver-reordered / hold / drop QoS 0 / duplicate / node disconnect with will / host disconnect / time, interleaved with publishes on the node and up to 3 devices (4 publish modes, 1-3 metrics), enable / disable / register / unregister, node and device rebirths, and (a third of the cases) changes of the metric set the next births carry (extra metric x<k> added / replaced / dropped; lenient or strict recording stores at the host); every schedule is followed by the fault-free settling phase (<= 6 rounds of deliver-all, timeout, deliver-all, publish on every live object, deliver-all). Every node-side step is an `eon stim` line, every delivery to the host a `host ev` line (both models validated in the loop). Non-trivial = every case; distinct = distinct request-line sequences (hashed).";
+pub const RULE: &str = "closed loop of the real EoN and the real Application through a simulated broker carrying the real wire form (topic strings, prost bytes), one paused runtime, one mock clock, both rebirth cooldowns 0, resequencing on, reorder timeout 50 / 200 / 3000 ms: (a) scripted scenarios (clean start, lost DDATA -> gap -> timeout -> NCMD -> rebirth, host started late, lost NBIRTH, duplicate NDATA, node disconnect with will, will overtaken by the new NBIRTH, host disconnect during traffic, DDEATH overtaking / overtaken, manual rebirth with reordered births, NCMD lost / duplicated, partial gap fill, unregister in flight, property sets of every datatype / nested / deep on all births, on device births only, on data, across a gap-timeout rebirth, across a manual rebirth and a reconnect); (b) random fault schedules of 10-40 (thorough: 20-120) steps over deliver-oldest / deliver-reordered / hold / drop QoS 0 / duplicate / node disconnect with will / host disconnect / time, interleaved with publishes on the node and up to 3 devices (4 publish modes, 1-3 metrics), enable / disable / register / unregister, node and device rebirths, and (a third of the cases) changes of the metric set the next births carry (extra metric x<k> added / replaced / dropped; lenient or strict recording stores at the host), and (a third of the cases, independently) property sets on the birth metrics and / or on every data metric (a value and a null of every property datatype incl. DateTime, Text and UUID, nested sets, set lists, twelve levels of nesting; switched on before the first connection or at a random step, changed or switched off later); every schedule is followed by the fault-free settling phase (<= 6 rounds of deliver-all, timeout, deliver-all, publish on every live object, deliver-all). Every node-side step is an `eon stim` line, every delivery to the host a `host ev` line (both models validated in the loop). Non-trivial = every case; distinct = distinct request-line sequences (hashed).";
 
 fn opt_path(args: &Args, key: &str) -> Option<PathBuf> {
     args.rest.iter().position(|a| a == key).and_then(|i| args.rest.get(i + 1)).map(PathBuf::from)
